@@ -140,6 +140,19 @@ def r2_mode_reaches_solver(ctx, chk, rule="C12.2"):
         d = splat[0]
         inner = d[2][0] if d[0] == "call" and d[1] in ("copy.deepcopy", "copy.copy", "dict") and d[2] else d
         flagp = shared.solver_names(ctx)["flag_param"]
+        if inner[0] == "ite" and not any(x == mode for x in C02._sub(inner[1])):
+            # a further optional entry written under a condition that has nothing to do with the mode (a per-run setting handed on
+            # when it is given): both alternatives must carry the mode
+            def flag_of(t_):
+                while t_[0] == "setitem":
+                    if t_[2] == C(flagp):
+                        return t_[3]
+                    t_ = t_[1]
+                return None
+            a_, b_ = flag_of(inner[2]), flag_of(inner[3])
+            if a_ == mode and b_ == mode:
+                chk.ok(rule, s.f.where(Li.node), "the game handed to StochasticGame carries prune_states = the mode loop variable on both alternatives of `%s`" % show(inner[1])[:60])
+                return
         if inner[0] == "ite" and any(x == mode for x in C02._sub(inner[1])):
             # the flag is written under a condition on the mode itself: judged mode by mode
             from ..symx import subst, deep_simp
